@@ -152,7 +152,7 @@ def framingOfEntry (e : String) : Option Framing :=
   if e == "reqT" || e == "respT" || e.startsWith "reqT." || e.startsWith "respT." || e == "mbap"
      || e == "looks" || e == "looksU" || e == "aserrT" then some .tcp
   else if e == "reqR" || e == "reqRC" || e == "respR" || e == "respRC" || e.startsWith "reqR."
-     || e.startsWith "respR." || e == "aserrR" then some .rtu
+     || e.startsWith "respR." || e == "aserrR" || e == "aserrRC" then some .rtu
   else none
 
 def isReqEntry (e : String) : Bool := e.startsWith "req"
@@ -180,6 +180,12 @@ def judgeC03 (op : POp) (out : String) : Expect :=
     match unhex out with
     | some b => .pred (b.length ≥ 2 && endsWithSpecCrc b) "every RTU frame the library emits must end with the CRC of the preceding bytes"
     | none => .noPanic
+  | .parse "aserrRC" d _ =>
+    -- the recogniser the RTU clients use: an exception if and only if these are five bytes, the function byte has the
+    -- error bit and the last two bytes are the CRC of the first three (low byte first)
+    let exp := if d.length == 5 && endsWithSpecCrc d && (d.getD 1 0).toNat ≥ 128
+      then (PErr.excR (d.getD 0 0) (d.getD 1 0 - 128) (d.getD 2 0)).str else "nil"
+    .exact (exp ++ " || " ++ exp)
   | .parse e d _ =>
     if (e == "reqRC" || e == "respRC") && d.length ≥ 4 then
       let (a, b) := splitTwo out
@@ -200,7 +206,9 @@ def judgeC03 (op : POp) (out : String) : Expect :=
 def judgeC01 (op : POp) (out : String) : Expect :=
   match op with
   | .newreq fr tid a =>
-    if out.startsWith "ok " then
+    if out.startsWith "FRAME-REWRITTEN" then .pred false "the frame of a request was rewritten when another request was encoded afterwards"
+    else if out.startsWith "ENCODING-NOT-STABLE" then .pred false "encoding the same request twice gave two different frames"
+    else if out.startsWith "ok " then
       let adu := Spec.adu fr tid a
       .pred (Spec.legal a && (out.startsWith ("ok bytes=" ++ hex adu ++ " ")) && adu.length ≤ Spec.maxADU fr)
         s!"a constructed request must be legal, at most {Spec.maxADU fr} bytes and serialize to {hex adu}"
@@ -220,6 +228,9 @@ def judgeC10 (op : POp) (out : String) : Expect :=
   match op with
   | .parse _ _ _ =>
     let (a, b) := splitTwo out
+    if (out.splitOn "NIL-VALUE-NIL-ERROR").length > 1 then .pred false "neither a decoded value nor an error was returned" else
+    if (out.splitOn "SENTINEL-MUTATED").length > 1 then
+      .pred false "the call wrote into an exported sentinel error: later results depend on this input, not only on their own bytes" else
     .pred (!isPanicStr a && !isPanicStr b && a == b && (out.splitOn "VALUE-NONNIL").length == 1)
       "no panic, result independent of spare capacity, nil value on error"
   | _ => .noPanic
@@ -367,7 +378,11 @@ def POp.judge (prop : String) (op : POp) (out : String) : Expect :=
   else if prop == "C11" then
     -- "how the library itself packs coils for write requests": the FC15 frame on the wire (C01's oracle)
     match op with
-    | .newreq _ _ _ => judgeC01 op out
+    | .newreq _ _ a =>
+      -- every coil pattern of 1..1968 coils can be written
+      if a.fc == 15 && 1 ≤ a.coils.length && a.coils.length ≤ 1968 && out.startsWith "err" then
+        .pred false "a coil pattern of 1..1968 coils must be accepted by the write-multiple-coils constructors"
+      else judgeC01 op out
     | _ => judgeC11 op out
   else if prop == "C18" then judgeC18 op out
   else .free
